@@ -9,6 +9,7 @@ CONSTANTS
   Leaky = FALSE
   Alphabet <- AllCmds
   Kinds <- AllKinds
+  Ctxs <- BothCtxs
 INIT Init
 NEXT Next
-INVARIANTS EntryIsForkImage TrapRule SharedDescriptions Final Emit
+INVARIANTS NoForeignTrapAction EntryIsForkImage TrapRule SharedDescriptions Final Emit
